@@ -1,4 +1,4 @@
-From Rws Require Import Str Utf8 GenCli Config.
+From Rws Require Import Str Utf8 GenCli GenCliDoc Config StrLemmas TrimLemmas C01Proof.
 Open Scope N_scope.
 
 Definition oeqb (a : option (list N)) (v : list N) : bool := match a with Some x => beqs x v | None => false end.
@@ -86,4 +86,91 @@ Example flags_reach : forallb (fun f => let '(s, l, v) := f in oeqb (flag_var (4
 Proof. vm_compute. reflexivity. Qed.
 Example all_have_defaults : forallb (fun f => let '(_, _, v) := f in match default_of v with Some _ => true | None => false end) flag_table = true.
 Proof. vm_compute. reflexivity. Qed.
-Print Assumptions C12_precedence.
+
+
+(* ---------- independence: a source's entries for other settings do not matter ---------- *)
+Theorem independent V e e' file file' args args' :
+  cli_last V args = cli_last V args' ->
+  match file with Some c => file_last V c | None => None end = match file' with Some c => file_last V c | None => None end ->
+  env_get V e = env_get V e' ->
+  env_get V (setup e file args) = env_get V (setup e' file' args').
+Proof. intros H1 H2 H3. rewrite !C12_precedence. unfold first_some. cbn [fold_right]. rewrite H1, H2, H3. reflexivity. Qed.
+
+(* ---------- the documented spellings reach their settings (tables regenerated from the repository's own documentation) ---------- *)
+Definition is_var (v : list N) : bool := existsb (fun f => let '(_, _, v') := f in beqs v v') flag_table.
+Definition toml_flag (tk : list N * list N) : list N :=
+  [45;45] ++ (match fst tk with [] => [] | t => t ++ [45] end) ++ replace (snd tk) [95] [45].
+Lemma documented_reach :
+  forallb (fun f => match flag_var f with Some _ => true | None => false end) doc_cli_flags = true /\
+  forallb (fun tk => match flag_var (toml_flag tk) with Some _ => true | None => false end) doc_toml_keys = true /\
+  forallb is_var doc_variables = true /\
+  (* and every setting of the table is documented in all three places *)
+  forallb (fun f => let '(s, l, v) := f in existsb (beqs (45 :: s)) doc_cli_flags && existsb (beqs ([45;45] ++ l)) doc_cli_flags &&
+                     existsb (fun tk => oeqb (flag_var (toml_flag tk)) v) doc_toml_keys && existsb (beqs v) doc_variables) flag_table = true.
+Proof. repeat split; vm_compute; reflexivity. Qed.
+
+(* ---------- the config-file reader on a rendered entry ----------
+   an entry  key <pad> = <pad> [quote] value [quote] <pad>  (pads of spaces and tabs, either quote style or none, one-line array brackets)
+   becomes the synthetic long flag --[table-]key=value with '_' in the key replaced by '-' *)
+Definition plainb (s : list N) : bool := forallb (fun c => negb (existsb (N.eqb c) [32;9;35;34;39;91;93;61;10;13])) s.
+Definition padb (s : list N) : bool := forallb (fun c => N.eqb c 32 || N.eqb c 9) s.
+Lemma remove_byte_plain c s : plainb s = true -> existsb (N.eqb c) [32;9;35;34;39;91;93;61;10;13] = true -> remove_byte c s = s.
+Proof.
+  intros Hp Hc. apply remove_byte_notin. intro Hin. unfold plainb in Hp. rewrite forallb_forall in Hp. specialize (Hp c Hin).
+  rewrite Hc in Hp. discriminate.
+Qed.
+Lemma strip_spaces_pad s : padb s = true -> strip_spaces s = [].
+Proof. unfold strip_spaces, remove_byte, padb. induction s as [|c s IH]; intro H; [reflexivity|].
+  cbn [forallb] in H. apply andb_prop in H as [Hc Hs]. cbn [filter]. destruct (N.eqb_spec c 32) as [->|H32]; cbn [negb].
+  - apply IH, Hs.
+  - cbn [orb] in Hc. cbn [filter]. rewrite Hc. cbn [negb]. apply IH, Hs. Qed.
+Lemma strip_spaces_app a b : strip_spaces (a ++ b) = strip_spaces a ++ strip_spaces b.
+Proof. unfold strip_spaces. rewrite !remove_byte_app. reflexivity. Qed.
+Lemma strip_spaces_plain s : plainb s = true -> strip_spaces s = s.
+Proof. intro H. unfold strip_spaces. rewrite (remove_byte_plain 32 s H) by reflexivity. apply (remove_byte_plain 9 s H). reflexivity. Qed.
+Lemma plain_notin c s : plainb s = true -> existsb (N.eqb c) [32;9;35;34;39;91;93;61;10;13] = true -> ~ In c s.
+Proof. intros Hp Hc Hin. unfold plainb in Hp. rewrite forallb_forall in Hp. specialize (Hp c Hin). rewrite Hc in Hp. discriminate. Qed.
+
+Definition quote_ok (q : list N) : bool := beqs q [] || beqs q [34] || beqs q [39] .
+Theorem line_to_arg_render prefix k v q p2 p3 p4 :
+  plainb k = true -> k <> [] -> plainb v = true -> quote_ok q = true -> padb p2 = true -> padb p3 = true -> padb p4 = true ->
+  line_to_arg prefix (k ++ p2 ++ [61] ++ p3 ++ q ++ v ++ q ++ p4) =
+    (prefix, Some ([45;45] ++ (match prefix with [] => [] | _ => prefix ++ [45] end) ++ replace k [95] [45] ++ [61] ++ v)).
+Proof.
+  intros Hk Hkn Hv Hq H2 H3 H4. unfold line_to_arg.
+  assert (Hq' : forall c, In c q -> c = 34 \/ c = 39).
+  { unfold quote_ok in Hq. intros c Hc. destruct q as [|a [|b r]]; [contradiction| |exfalso].
+    - destruct Hc as [<-|[]]. cbn in Hq. destruct (N.eqb_spec a 34); [auto|]. destruct (N.eqb_spec a 39); [auto|]. cbn in Hq. discriminate.
+    - cbn in Hq. rewrite !andb_false_r in Hq. discriminate. }
+  assert (Hnc : ~ In 35 (k ++ p2 ++ [61] ++ p3 ++ q ++ v ++ q ++ p4)).
+  { rewrite !in_app_iff. intros [H|[H|[H|[H|[H|[H|[H|H]]]]]]].
+    - exact (plain_notin 35 k Hk eq_refl H).
+    - unfold padb in H2. rewrite forallb_forall in H2. specialize (H2 35 H). discriminate.
+    - destruct H as [H|[]]. discriminate.
+    - unfold padb in H3. rewrite forallb_forall in H3. specialize (H3 35 H). discriminate.
+    - destruct (Hq' _ H); discriminate.
+    - exact (plain_notin 35 v Hv eq_refl H).
+    - destruct (Hq' _ H); discriminate.
+    - unfold padb in H4. rewrite forallb_forall in H4. specialize (H4 35 H). discriminate. }
+  assert (Hsc : strip_comment (k ++ p2 ++ [61] ++ p3 ++ q ++ v ++ q ++ p4) = k ++ p2 ++ [61] ++ p3 ++ q ++ v ++ q ++ p4).
+  { unfold strip_comment. destruct (split_once _ [35]) as [[a b']|] eqn:E; [|reflexivity].
+    exfalso. apply Hnc. apply split_once_1_spec in E. rewrite E. apply in_or_app. right. left. reflexivity. }
+  rewrite Hsc.
+  assert (Hqs : strip_spaces q = q).
+  { unfold strip_spaces. rewrite (remove_byte_notin 32 q) by (intro Hc; destruct (Hq' _ Hc); discriminate).
+    apply remove_byte_notin. intro Hc; destruct (Hq' _ Hc); discriminate. }
+  rewrite !strip_spaces_app, (strip_spaces_plain k Hk), (strip_spaces_pad p2 H2), (strip_spaces_pad p3 H3), (strip_spaces_pad p4 H4),
+          (strip_spaces_plain v Hv), Hqs. change (strip_spaces [61]) with [61]. cbn [app]. rewrite app_nil_r.
+  destruct k as [|k0 kr] eqn:Ek; [congruence|]. rewrite <- Ek in *.
+  assert (Hsw : starts_with (k ++ 61 :: q ++ v ++ q) [91] = false).
+  { rewrite Ek. unfold starts_with. cbn [app prefixb]. destruct (N.eqb_spec 91 k0) as [E|_]; [|reflexivity].
+    exfalso. subst k0. apply (plain_notin 91 (91 :: kr)); [rewrite <- Ek; exact Hk|reflexivity|left; reflexivity]. }
+  rewrite Hsw. rewrite split_once_1 by (exact (plain_notin 61 k Hk eq_refl)).
+  assert (Hval : remove_byte 91 (remove_byte 93 (remove_byte 34 (remove_byte 39 (q ++ v ++ q)))) = v).
+  { assert (Hrq : remove_byte 34 (remove_byte 39 q) = []).
+    { unfold quote_ok in Hq. destruct q as [|a [|b r]]; [reflexivity| |cbn in Hq; rewrite !andb_false_r in Hq; discriminate].
+      destruct (Hq' a (or_introl eq_refl)) as [-> | ->]; reflexivity. }
+    rewrite !remove_byte_app. rewrite (remove_byte_plain 39 v Hv) by reflexivity. rewrite (remove_byte_plain 34 v Hv) by reflexivity.
+    rewrite Hrq. cbn [app]. rewrite app_nil_r. rewrite (remove_byte_plain 93 v Hv) by reflexivity. apply (remove_byte_plain 91 v Hv). reflexivity. }
+  rewrite Hval. destruct prefix; [reflexivity|]. cbn [app]. rewrite <- app_assoc. reflexivity.
+Qed.
